@@ -4,7 +4,7 @@
 def declare(check, na):
     na('C37', 'the code under the property is Scala (is.hail.stats); no Scala compiler, JAR or Spark exists in the sandbox, so there is no execution for a runtime monitor to observe; a Python transliteration would test the transliteration, not the engine')
 
-    check('C28', 'exploration', 'reference-recogniser oracle over exhaustive small-alphabet strings + random hostile Unicode + icontract post-conditions on the repo tests',
+    check('C28', 'exploration', 'reference-recogniser oracle over exhaustive small-alphabet strings + random hostile Unicode + icontract post-conditions on the repo tests; the real check_valid_new_user / insert_new_user and the creating routes over a fake users table: what is stored is judged',
           'every string over a hostile 8-symbol alphabet up to length 6/7 plus seeded random strings is run through the real validators and compared with hand-written recognisers of the two stated languages; held means no disagreement on the strings listed in the evidence',
           'trusted: the two recognisers in vf/monitors/c28.py')
 
@@ -15,29 +15,29 @@ def declare(check, na):
     check('C01', 'exploration', SQL_TECH,
           'scheduler/canceller counters are recounted from jobs after every commit of thousands of fuzzed histories (cancel/commit/schedule/complete/deactivate/cleanup in any order); held = no unexplained disagreement on the histories listed in the evidence',
           SQL_NOTE)
-    check('C02', 'exploration', SQL_TECH + '; per-date shadow ledger',
+    check('C02', 'exploration', SQL_TECH + '; per-date shadow ledger; re-registrations with differing quantities; requests served in the middle of compaction / clean-up passes',
           'billing aggregates (per job, group+ancestors, billing project/user, per day) are recomputed from attempts x attempt_resources after every commit, with compaction, late/duplicate messages and date roll-over in the histories',
           SQL_NOTE)
-    check('C04', 'exploration', 'job-state edge monitor between consecutive committed states + tally recount, under duplicated/late/stale worker messages',
+    check('C04', 'exploration', 'job-state edge monitor between consecutive committed states + tally recount, under duplicated/late/stale worker messages; rule that a job falls back to Ready only when its attempt is over; directed stale-attempt and creating-parent scenarios',
           'every committed jobs.state change is checked against the lifecycle graph and the completed/succeeded/failed/cancelled tallies are recounted after every commit',
           SQL_NOTE)
-    check('C05', 'exploration', SQL_TECH + ' (dependency gating) + edge monitor',
+    check('C05', 'exploration', SQL_TECH + ' (dependency gating) + edge monitor; gating also for jobs of uncommitted updates; always-run jobs never end Cancelled; directed parent-outcome / live-parent / mixed-parent scenarios',
           'after every commit: non-Pending committed jobs have only terminal parents, failed parents imply cancelled=1, n_pending_parents equals the live parents; cancelled non-always-run jobs never enter Creating/Running',
           SQL_NOTE)
     check('C06', 'exploration', SQL_TECH + ' + the real GET paths compared with a recount',
           'batch / job-group state, n_jobs, time_completed and the views returned by _get_batch/_get_job_group are compared with a recount over committed jobs after every commit / at sampled GETs',
           SQL_NOTE)
-    check('C10', 'exploration', SQL_TECH + ' (free-core conservation)',
+    check('C10', 'exploration', SQL_TECH + ' (free-core conservation); in-memory free cores == recorded free cores at quiescent points; worker start reports overtaking the driver\'s own schedule_job call',
           'instances_free_cores_mcpu is recomputed as cores minus open attempts after every commit, for pool and job-private instances under duplicate/stale reports, unschedule and deactivation',
           SQL_NOTE)
 
-    check('C07', 'exploration', SQL_TECH + '; before/after snapshots around cancels and submissions; probe of the is_job_cancelled SQL predicate for every live job',
+    check('C07', 'exploration', SQL_TECH + '; before/after snapshots around cancels and submissions; probe of the is_job_cancelled SQL predicate for every live job; ledger of API-acknowledged cancels; directed additions-after-cancel scenarios',
           'after cancelling arbitrary groups in any order: cancelled non-always-run jobs never start, submissions under cancelled groups are rejected without side effects, repeated cancels change nothing, jobs outside the subtree keep their rows and the SQL predicate used by schedule/started/creating answers correctly (and without error) for every job',
           SQL_NOTE)
     check('C08', 'exploration', 'adversarial schema-valid submissions through the three real submission handlers + independent well-formedness predicate + bounded-progress drain',
           'ill-formed dependency / job-id submissions must be rejected without leaving jobs behind; every accepted and committed submission is driven to completion by the real scheduler and completion path within #jobs+3 rounds',
           SQL_NOTE + '; bounded progress instead of unbounded liveness')
-    check('C41', 'exploration', SQL_TECH + ' restricted to jobs of uncommitted updates (row-as-inserted comparison) + committed-only recounts',
+    check('C41', 'exploration', SQL_TECH + ' restricted to jobs of uncommitted updates (row-as-inserted comparison) + committed-only recounts; requests served in the middle of background passes',
           'every job of an uncommitted update is compared with its inserted row after every commit; counters, tallies and completion state are recounted over committed jobs only while late / never / out-of-order commits happen',
           SQL_NOTE)
 
@@ -54,38 +54,38 @@ def declare(check, na):
     check('C27', 'fault_enumeration', 'fault catalogue x injection sites on the real gear.Database over the aiomysql shim, twin-run table comparison',
           'every (MySQL error, site, before/after effect) single fault and sampled / all pairs are injected into generated transactions run through the real retry decorator and Transaction code; retryable faults must end with the fault-free result, others must propagate after one attempt with tables unchanged, no connection may stay checked out',
           'trusted: minimysql + aiomysql/pymysql shims; server-side effect of each error modelled per the MySQL manual; a COMMIT whose response is lost after taking effect is informational')
-    check('C19', 'exploration', 'boundary-directed input generation (exact serialized sizes, limits at window sums +-1) over the real _create_bunches with a concatenation/limit oracle',
+    check('C19', 'exploration', 'boundary-directed input generation (exact serialized sizes, limits at window sums +-1) over the real _create_bunches with a concatenation/limit oracle; nested job-group trees judged against the creation log; field-disordered spec lists',
           'seeded spec lists with exact byte sizes and limits placed on every packing boundary, plus specs made by the client API, are bunched by the real method and checked for byte-identical ordered concatenation, groups-before-jobs, non-emptiness and the count and (exclusive) byte limits',
           'trusted: json-backed orjson shim; oracle in vf/monitors/c19.py; byte limit read as exclusive per the code\'s own assertion')
-    check('C20', 'exploration', 'runtime monitoring of the real gather helpers on a virtual-time asyncio loop under seeded schedules, failures, nesting and cancellations',
+    check('C20', 'exploration', 'runtime monitoring of the real gather helpers on a virtual-time asyncio loop under seeded schedules, failures, nesting and cancellations; CancelledError born inside partial functions; first failure within a burst for the online pool',
           'enter/exit of every task body, every helper call/return and the task set are recorded under ~4.5k/280k distinct completion schedules (permits 1-5, 0-12 bodies, nesting <= 2) and checked against the bound, result order, error contract, cancellation and no-task-left rules',
           'trusted: vf/sim/vloop.py, CPython asyncio, the body/driver instrumentation in c20.py; the caller holds one permit as the repository\'s callers do')
-    check('C21', 'exploration', 'real retry helpers on a virtual-time loop with enumerated and random exception sequences against an independent classification table',
+    check('C21', 'exploration', 'real retry helpers on a virtual-time loop with enumerated and random exception sequences against an independent classification table; failures raised while another exception is being handled (implicit context)',
           'every exception sequence up to length 3/4 over 23 representative values and up to length 7 over limited/transient/rate-limit symbols, plus seeded longer ones; number of calls, propagated exception and every delay (both jitter extremes) are checked',
           'trusted: the 59-row classification table in c21.py written from the statement and code comments; exception classes that only exist as inert stubs are excluded and listed')
     check('C25', 'exploration', 'grammar-directed + exhaustive small-decimal generation over the real parsers and the real job validator, exact-rational oracle, client/server acceptance differential',
           'every decimal below 20/100 with up to three places times every unit plus seeded strings of every spelling class are parsed by the real functions and validated by the real whole-job validator; values are compared with exact rational arithmetic and acceptance must agree',
           'trusted: fractions.Fraction; recogniser in vf/monitors/c25.py; numerals > 4000 digits not explored')
-    check('C29', 'exploration', 'grammar-based hostile URL generation over the real validator with a WHATWG-URL browser-navigation reference model (three-valued)',
+    check('C29', 'exploration', 'grammar-based hostile URL generation over the real validator with a WHATWG-URL browser-navigation reference model (three-valued); handler phase: the live auth route table on a real aiohttp router, 16 session states, every 3xx Location judged',
           'seeded URLs combining schemes, slash/backslash forms, userinfo tricks, host look-alikes, ports and whitespace/control injection around the configured hosts are passed to the real validate_next_page_url; every accepted string must, per the model, navigate to one of the four configured hosts',
           'trusted: the browser_destination model in vf/monitors/c29.py (IDNA / IP literals / file / ftp / ws answered unknown and not judged)')
-    check('C30', 'exploration', 'real PR / WatchedBranch state machine on a virtual-time loop against GitHub and batch protocol fakes; oracle at every accepted merge',
+    check('C30', 'exploration', 'real PR / WatchedBranch state machine on a virtual-time loop against GitHub and batch protocol fakes; oracle at every accepted merge; train phase with fault plans at the fake GitHub and non-refreshing updates; real current target judged at the merge endpoint',
           'seeded 4-8 h histories of pushes, reviews, labels, statuses, batch results, target moves, API faults and lost webhooks; every merge GitHub accepted is judged on what CI had last fetched (approved, no do-not-merge label, all checks green on the head, batch against the current target, one merge per target fetch)',
           'trusted: vf/sim/fake_github.py (REST + GraphQL + merge preconditions, no branch protection), fake batch client, vf/sim/vloop.py')
     check('C38', 'fault_enumeration', 'crash-point enumeration over a provenance-tracking engine fake + partitioning sweep on the real function',
           'the real VariantDatasetCombiner is run to completion, stopped and resumed at every step boundary, at every operation inside save() and at sampled operations of run(); the final dataset must be built from exactly the given inputs once each; the real even-genome partitioning is swept over real contig tables and interval sizes',
           'trusted: vf/sim/fake_hl.py (provenance-tracking stand-in for the Hail engine and FS)')
 
-    check('C09', 'fault_enumeration', 'real client (aioclient + its retry layer) over a fake transport into the real front-end handlers; fault plans over the requests it sends; twin-run comparison',
+    check('C09', 'fault_enumeration', 'real client (aioclient + its retry layer) over a fake transport into the real front-end handlers; fault plans over the requests it sends; twin-run comparison; the fault-free run itself judged against the submission the client built',
           'for generated submissions (fast and multi-bunch paths, first and later updates) every single-request fault {lost response, dropped request, duplicated delivery, foreign update interleaved} and sampled pairs are injected; the outcome is compared with the fault-free twin (batches, updates, jobs, groups, dependencies, counters, id ranges, client-computed ids)',
           SQL_NOTE + '; lost response / dropped request are modelled as HTTP 503 after / before the handler ran')
-    check('C14', 'exploration', 'route x caller x target enumeration on the live route table with response + table-diff oracle',
+    check('C14', 'exploration', 'route x caller x target enumeration on the live route table with response + table-diff oracle; response-content oracle over listings with search expressions; membership revocation phase; the service\'s own on_startup runs',
           'every registered route of the front end is called as 8 caller classes on up to 5 target batches through the real aiohttp router and decorators (auth service faked); a required denial must be an error response with byte-identical tables before and after',
           'trusted: minimysql for the membership / owner filters, fake auth service, aiohttp_session shim; policy map written from the property statement; UI templates render through an inert stub')
     check('C16', 'exploration', 'boundary event history + reference-FIFO and quiescent-point liveness oracles under virtual time',
           'seeded schedules of the real FIFOWeightedSemaphore (2-12 jobs, ties, zero holds): never over capacity, no grant before the FIFO reference would grant, no fitting head waiter at any quiescent point',
           'trusted: vf/sim/vloop.py, vf/sim/quiesce.py, a 20-line reference FIFO; cancellation is outside the property and not injected')
-    check('C24', 'exploration', 'admission history checked with exact arithmetic (sliding-window count + unused-admissible-time) under a controlled clock',
+    check('C24', 'exploration', 'admission history checked with exact arithmetic (sliding-window count + unused-admissible-time) under a controlled clock; abandoned waiters (cancel / timeout / teardown), failing and cancelled bodies',
           'seeded arrival patterns (bursts, steady, arrivals at expiry instants, non-representable windows) through the real RateLimiter with its clock redirected; no window over count beyond 1 ulp, no admissible stretch longer than 2 us left unused',
           'trusted: virtual loop with one-ulp timer resolution, clock magnitude ~ time.time(), the two tolerances')
     check('C26', 'exploration', 'lookup / load / cancel event history with bounded, fresh, single-flight and justified-failure oracles under virtual time',
@@ -95,7 +95,7 @@ def declare(check, na):
           'seeded schedules of the real WeightedSemaphore with cancellation of waiting, just-woken and holding tasks and raising bodies: never over capacity and no capacity consumed by nobody at any quiescent point',
           'trusted: vf/sim/vloop.py, vf/sim/quiesce.py; a reference semaphore is used for classification only')
 
-    check('C39', 'exploration', 'concurrent world under virtual time: real driver loop bodies, fake workers, clients, preemption injector, seeded delays at every SQL statement; bounded-progress and no-double-run oracles',
+    check('C39', 'exploration', 'concurrent world under virtual time: real driver loop bodies, fake workers, clients, preemption injector, seeded delays at every SQL statement; bounded-progress and no-double-run oracles; directed orphaned-attempt scenario; lost worker answers; recorded attempts running side by side; edge rule on fallbacks to Ready',
           'during a fault phase (preemptions, lost / duplicated worker messages, cancellations) and a quiescent phase of bounded length the real scheduler, JPIM and canceller loop bodies run as concurrent tasks whose database statements interleave; afterwards every committed job must be terminal, cancelled batches complete, always-run jobs not Cancelled, and no older attempt may keep running beside a newer one',
           SQL_NOTE + '; unbounded liveness is restated as bounded progress (R = 4 x #jobs + 10 rounds); the autoscaler and the worker are harness stand-ins; replays of a single case may schedule differently from the in-shard run (object-identity ordered sets inside asyncio)')
     check('C11', 'exploration', 'icontract post-condition with an exact-rational water-filling reference over seeded and exhaustive-small inputs',
@@ -104,7 +104,7 @@ def declare(check, na):
     check('C12', 'exploration', 'grammar-directed request strings x generated pool deployments through the real handler / selection code, exact-rational request evaluator + brute-force satisfiability oracle',
           'request strings accepted by the real validator are placed by the real _create_jobs / select_inst_coll / convert_requests_to_resources on generated gcp and azure pool configurations; grants must cover the request and fit one worker, rejections must be confirmed by a brute-force search over all configured collections',
           'trusted: the Fraction evaluator and satisfiability predicate, the machine-type tables as the truth about worker sizes, the recording fake DB; inert SDK stubs are asserted never to be called')
-    check('C13', 'exploration', 'enumeration of machine types x disk / preemptible / region options with packing-sum and serialization round-trip oracles',
+    check('C13', 'exploration', 'enumeration of machine types x disk / preemptible / region options with packing-sum and serialization round-trip oracles; absolute whole-worker reference computed from creation parameters',
           'for every machine type of both clouds and every pool the config page can build: per resource, the billed quantities of any packing of power-of-two requests never exceed the whole worker, the whole-worker job is billed exactly the worker, and to_dict / from_dict reload bills identically',
           'trusted: a fake ProductVersions table in which every product exists; json as the storage format')
     check('C15', 'exploration', 'schema-walking spec generator through the real validator and handler, all format versions, exhaustive region subsets <= 12 and random <= 63',
@@ -116,19 +116,19 @@ def declare(check, na):
     check('C32', 'exploration', 'type-directed value generation + JSON wire round trip with NaN / container-aware equality and failure localisation',
           'generated well-typed values (missing anywhere, non-finite floats, calls, loci, intervals, sets, dicts, ndarrays, nested structs) are converted to the JSON wire form and back by the real code and must come back equal',
           'trusted: vf/gen_hail_types.py (generator and equality)')
-    check('C33', 'exploration', 'encode / decode round trip on real code + independent decoder written from EType.fromPythonTypeEncoding',
+    check('C33', 'exploration', 'encode / decode round trip on real code + independent decoder written from EType.fromPythonTypeEncoding; struct values with permuted key order',
           'the bytes produced by the real encoder decode back equal, and an independent engine-layout decoder consumes them exactly to the same value',
           'trusted: the independent decoder in c33.py (written from the Scala EType sources; the engine cannot run here), vf/hail_call_model.py')
     check('C34', 'exploration', 'exhaustive small / boundary / random calls and genotype indices against a transcription of Call.scala / Genotype.scala with constants extracted from the Scala at run time',
           'the Python int32 packing equals the model for every call the model accepts without overflow, decode and index <-> allele pair are inverse; engine-rejected calls are recorded, not judged',
           'trusted: vf/hail_call_model.py (transcription; constants are re-extracted from the Scala sources on every run, extraction failure => INCONCLUSIVE)')
-    check('C17', 'exploration', 'event log of really executed bash jobs under the real LocalBackend + job numbering vs the generator\'s own edge list and a least-fixpoint skip model',
+    check('C17', 'exploration', 'event log of really executed bash jobs under the real LocalBackend + job numbering vs the generator\'s own edge list and a least-fixpoint skip model; multi-run histories on one Batch (dry / failed / clean / rejected runs, cycles closed through numbered jobs)',
           'seeded random pipelines (DAGs and cyclic ones, explicit / resource-induced / group edges, always_run and failing sets, random call orders) are built with the real DSL and really run by LocalBackend; numbering, execution order, executed set, skip set, cycle rejection before anything runs and the raised error are compared with the model',
           'trusted: bash, the 20-line skip model in c17.py, the generator\'s edge list as the dependency relation')
-    check('C18', 'exploration', 'recording fake batch client behind the real ServiceBackend + independent model of resource paths, parents, uploads / downloads and command literal segments',
+    check('C18', 'exploration', 'recording fake batch client behind the real ServiceBackend + independent model of resource paths, parents, uploads / downloads and command literal segments; python jobs with nested container / keyword arguments; long shared job names',
           'generated pipelines (inputs, input groups, job files, declared groups, python results, add_extension before / after mention, hostile names, digit probes after references, colliding tokens) are compiled by the real DSL and submitted to a recording client; producer upload location = consumer download location, consumer is a child of the producer, every reference becomes its quoted local path and literal text is unchanged, distinct resources never share a path',
           'trusted: vf/monitors/c18.py model, the fake client records exactly what aioclient.Batch.create_job receives; an input group whose members would share a path must be refused at declaration')
-    check('C35', 'exploration', 'differential rendering (real CSERenderer vs PlainRenderer) judged by a static scope checker and one reference IR evaluator',
+    check('C35', 'exploration', 'differential rendering (real CSERenderer vs PlainRenderer) judged by a static scope checker and one reference IR evaluator; nested binding-site corpus; aggregation-context tokens for lifted aggregations',
           'seeded random and catalogued expression / Table DAGs with deliberate Python-object sharing (in and out of lambdas, across StreamAgg / StreamAggScan / If) are built through the real API, rendered by both renderers, scope-checked on every node and evaluated by one reference evaluator; no engine evaluation',
           'trusted: the scoping rules and evaluator in c35.py, vf/hail_fake_backend.py, vf/gen_hail_ir.py, shims')
     check('C36', 'exploration', 'construction-time contract hook on Expression.__init__ + top-down IR walk with the repository\'s binding metadata + order-precise transcription of the engine\'s relational typ rules (TableIR.scala / MatrixIR.scala) + schema model + literal round trip',
